@@ -1,6 +1,7 @@
 (* C07 — Time-range chunk lookup is exact, on both metadata backends.
    Statements only; every proof is `exact <lemma>`; assumptions printed. *)
-From CS Require Import Base.Prelude Model.Catalog Proofs.CatalogProofs.
+From CS Require Import Base.Prelude Model.Catalog Proofs.CatalogProofs Proofs.CatalogTie.
+From CSGen Require Import Consts Funs.
 Open Scope Z_scope.
 
 (* For every history of register / delete / complete-compaction operations
@@ -56,3 +57,16 @@ Print Assumptions C07_live_map_in_memory.
 Theorem C07_bucket_widths_agree : widths_agree.
 Proof. exact widths_agree_holds. Qed.
 Print Assumptions C07_bucket_widths_agree.
+
+(* The interval test and the bucket computations of the model are, expression
+   for expression, the ones translated from the Rust sources on this run
+   (generated/Funs.v): TimeRange::overlaps, both hour_bucket functions and the
+   inline bucket computation of get_chunks_with_predicates. *)
+Theorem C07_model_functions_are_the_code :
+  (forall cmin cmax s e, overlaps cmin cmax s e = Funs.timerange_overlaps cmin cmax s e) /\
+  (forall t, bucketw Consts.S3_REGISTER_BUCKET_NANOS t = Funs.s3_hour_bucket t) /\
+  (forall s e, bucketw Consts.S3_GET_BUCKET_NANOS s = Funs.s3_get_start_bucket s e /\
+               bucketw Consts.S3_GET_BUCKET_NANOS e = Funs.s3_get_end_bucket s e) /\
+  (forall t, bucketw Consts.LOCAL_BUCKET_NANOS t = Funs.local_hour_bucket t).
+Proof. exact catalog_functions_are_the_code. Qed.
+Print Assumptions C07_model_functions_are_the_code.
